@@ -1011,10 +1011,96 @@ Proof.
   intros H1 H2 H3 H4 H5 H6 HX. unfold cmd_tail, r_uid. destruct uid.
   - napp. pstep ltac:(apply p_atom_kw; try reflexivity; discriminate).
     rewrite kw_lower by reflexivity. change (lookup cmd_toks (bs "uid")) with (Some TUid). cbv iota.
-    cbn [p_command]. pstep ltac:(idtac; pstep ltac:(apply p_sp_cons);
-                                 pstep ltac:(apply p_atom_kw; [exact H1|exact H2|exact HX]);
-                                 rewrite kw_lower by exact H3; rewrite H4, (H6 eq_refl); reflexivity).
-    reflexivity.
+    assert (E : p_command TUid (32 :: kw ch 0 name ++ X) = p_command_body true t X).
+    { cbn [p_command]. psp. pstep ltac:(apply p_atom_kw; [exact H1|exact H2|exact HX]).
+      rewrite kw_lower by exact H3. rewrite H4, (H6 eq_refl). reflexivity. }
+    unfold pbind at 1. rewrite E. reflexivity.
   - cbn [app]. pstep ltac:(apply p_atom_kw; [exact H1|exact H2|exact HX]).
     rewrite kw_lower by exact H3. rewrite H4, H5. reflexivity.
+Qed.
+
+(* ------------------------------------------------------------------ completeness *)
+Ltac kwcmd :=
+  erewrite cmd_kw; [|reflexivity|discriminate|reflexivity|vm_compute; reflexivity|reflexivity|(intros _; reflexivity) || (let Hq := fresh in intros Hq; discriminate Hq)|].
+
+Theorem parse_render_gen ch tag c r :
+  tag_ok tag = true -> cmd_ok c = true -> stops r = true -> try_lit sp r = None ->
+  parse_core (tag ++ 32 :: r_cmd ch c ++ r) = ROk (mkAst tag c) r.
+Proof.
+  intros Ht Hc Hr Hsp. rewrite parse_core_tail by exact Ht.
+  destruct c as [n| |set|mech|u p|m mbox|a b|lsub sel ref pat pats ret st|mbox atts|params|mbox flags dt msg
+                 |uid charset keys|uid set atts|uid set act silent flags|uid set mbox|uid set mbox];
+    cbn [r_cmd]; cbn [cmd_ok] in Hc.
+  - (* no argument *)
+    change (kw ch 0 (noarg_name n) ++ r) with (r_uid ch false ++ kw ch 0 (noarg_name n) ++ r).
+    destruct n; cbn [noarg_name]; (kwcmd; [reflexivity|exact Hr]).
+  - change (kw ch 0 "expunge" ++ r) with (r_uid ch false ++ kw ch 0 "expunge" ++ r).
+    kwcmd; [reflexivity|exact Hr].
+  - napp. kwcmd; [|reflexivity]. cbn [p_command_body].
+    pstep ltac:(idtac; psp; pstep ltac:(apply p_msg_set_app; assumption); reflexivity). reflexivity.
+  - napp. change (kw ch 0 "authenticate" ++ 32 :: mech ++ r) with (r_uid ch false ++ kw ch 0 "authenticate" ++ 32 :: mech ++ r).
+    kwcmd; [|reflexivity]. cbn [p_command_body].
+    pstep ltac:(idtac; psp; pstep ltac:(apply p_atom_app; assumption); reflexivity). reflexivity.
+  - apply andb_true_iff in Hc. destruct Hc as [Hu Hp]. napp.
+    change (kw ch 0 "login" ++ ?x) with (r_uid ch false ++ kw ch 0 "login" ++ x).
+    kwcmd; [|reflexivity]. cbn [p_command_body].
+    pstep ltac:(idtac; psp; pstep ltac:(apply p_astring_app; [exact Hu|reflexivity]); psp;
+                pstep ltac:(apply p_astring_app; assumption); reflexivity). reflexivity.
+  - napp. change (kw ch 0 (mboxcmd_name m) ++ ?x) with (r_uid ch false ++ kw ch 0 (mboxcmd_name m) ++ x).
+    destruct m; cbn [mboxcmd_name]; (kwcmd; [|reflexivity]); cbn [p_command_body];
+      (pstep ltac:(idtac; psp; pstep ltac:(apply p_mailbox_app; assumption); reflexivity)); reflexivity.
+  - apply andb_true_iff in Hc. destruct Hc as [Ha Hb]. napp.
+    change (kw ch 0 "rename" ++ ?x) with (r_uid ch false ++ kw ch 0 "rename" ++ x).
+    kwcmd; [|reflexivity]. cbn [p_command_body].
+    pstep ltac:(idtac; psp; pstep ltac:(apply p_mailbox_app; [exact Ha|reflexivity]); psp;
+                pstep ltac:(apply p_mailbox_app; assumption); reflexivity). reflexivity.
+  - napp. change (kw ch 0 (if lsub then "lsub" else "list")%string ++ ?x)
+      with (r_uid ch false ++ kw ch 0 (if lsub then "lsub" else "list")%string ++ x).
+    destruct lsub; (kwcmd; [|reflexivity]); cbn [p_command_body];
+      (pstep ltac:(apply p_list_app; assumption)); reflexivity.
+  - napp. change (kw ch 0 "status" ++ ?x) with (r_uid ch false ++ kw ch 0 "status" ++ x).
+    kwcmd; [|reflexivity]. cbn [p_command_body].
+    pstep ltac:(idtac; psp; pstep ltac:(apply p_mailbox_app; [exact Hc|reflexivity]); psp;
+                pstep ltac:(apply p_status_list_app); reflexivity). reflexivity.
+  - apply andb_true_iff in Hc. destruct Hc as [Hp Hd]. napp.
+    change (kw ch 0 "id" ++ ?x) with (r_uid ch false ++ kw ch 0 "id" ++ x).
+    kwcmd; [|reflexivity]. cbn [p_command_body].
+    pstep ltac:(apply p_id_app; assumption). reflexivity.
+  - napp. change (kw ch 0 "append" ++ ?x) with (r_uid ch false ++ kw ch 0 "append" ++ x).
+    kwcmd; [|reflexivity]. cbn [p_command_body].
+    pstep ltac:(apply p_append_app; exact Hc). reflexivity.
+  - napp. kwcmd; [|reflexivity]. cbn [p_command_body].
+    pstep ltac:(apply p_search_app; assumption). reflexivity.
+  - apply andb_true_iff in Hc. destruct Hc as [Hs Ha]. napp. kwcmd; [|reflexivity]. cbn [p_command_body].
+    pstep ltac:(idtac; psp; pstep ltac:(apply p_msg_set_app; [exact Hs|reflexivity]); psp;
+                pstep ltac:(apply p_fetch_atts_app; assumption); reflexivity). reflexivity.
+  - napp. kwcmd; [|reflexivity]. cbn [p_command_body].
+    pstep ltac:(apply p_store_app; assumption). reflexivity.
+  - apply andb_true_iff in Hc. destruct Hc as [Hs Hm]. napp. kwcmd; [|reflexivity]. cbn [p_command_body].
+    pstep ltac:(idtac; psp; pstep ltac:(apply p_msg_set_app; [exact Hs|reflexivity]); psp;
+                pstep ltac:(apply p_mailbox_app; assumption); reflexivity). reflexivity.
+  - apply andb_true_iff in Hc. destruct Hc as [Hs Hm]. napp. kwcmd; [|reflexivity]. cbn [p_command_body].
+    pstep ltac:(idtac; psp; pstep ltac:(apply p_msg_set_app; [exact Hs|reflexivity]); psp;
+                pstep ltac:(apply p_mailbox_app; assumption); reflexivity). reflexivity.
+Qed.
+
+Definition fin (ch : choices) : list Z := if c_opt ch 99 then [13; 10] else [].
+
+Theorem parse_core_render a ch : wf a = true -> parse_core (render a ch) = ROk a (fin ch).
+Proof.
+  destruct a as [tag c]. unfold wf, render. cbn [a_tag a_cmd]. intros H. apply andb_true_iff in H. destruct H as [Ht Hc].
+  fold (fin ch). apply parse_render_gen; [exact Ht|exact Hc| |]; unfold fin; destruct (c_opt ch 99); reflexivity.
+Qed.
+
+Theorem parse_render a ch : wf a = true -> parse (render a ch) = POk a.
+Proof. intros H. unfold parse. rewrite parse_core_render by exact H. reflexivity. Qed.
+
+Theorem parse_strict_render a ch : wf a = true -> parse_strict (render a ch) = POk a.
+Proof.
+  intros H. unfold parse_strict. rewrite parse_core_render by exact H. unfold fin. destruct (c_opt ch 99); reflexivity.
+Qed.
+
+Theorem parse_rest_render a ch : wf a = true -> at_end (parse_rest (render a ch)) = true.
+Proof.
+  intros H. unfold parse_rest. rewrite parse_core_render by exact H. unfold fin. destruct (c_opt ch 99); reflexivity.
 Qed.
